@@ -71,6 +71,12 @@ def APP_ROOT():
     return os.getenv('DEEP_APP_ROOT', '')
 
 
+# noinspection PyPep8Naming
+def NO_TRACE():
+    """Get the switch that makes the agent leave the trace hooks of the process alone (default: False)."""
+    return os.getenv('DEEP_NO_TRACE', 'False')
+
+
 PLUGINS = []
 """User definable plugins."""
 
